@@ -11,6 +11,35 @@ Import ListNotations.
 From V Require Import Model.Val Gen.PodsTab Model.Pods Proofs.PodsP.
 Open Scope N_scope.
 
+(* ---------------------------------------------------------------- concrete instances used by the *_hyps_sat examples *)
+Definition ex_id : str := [105;100].                                                        (* "id" *)
+Definition ex_elem : list (str * str) := [([110;97;109;101], [120]); ([105;100], [121;122])].  (* name="x" id="yz" *)
+Definition ex_elem_noid : list (str * str) := [([110;97;109;101], [120]); ([107;105;110;100], [70;76;79;87])].  (* name="x" kind="FLOW" *)
+Definition ex_dt : dt := {| d_y := 2024; d_mo := 2; d_d := 29; d_h := 23; d_mi := 59; d_s := 59; d_us := 999999;
+                            d_naive := false; d_oneg := true; d_omin := 330 |}.
+Definition ex_dt_naive : dt := {| d_y := 1999; d_mo := 12; d_d := 31; d_h := 7; d_mi := 5; d_s := 9; d_us := 123456;
+                                  d_naive := true; d_oneg := false; d_omin := 0 |}.
+Example ex_dt_valid : dt_valid ex_dt.
+Proof. unfold dt_valid, ex_dt; cbn. repeat split; try reflexivity; try discriminate. Qed.
+(* a float stand-in with infinitely many values: "floats" are naturals, repr is decimal text *)
+Definition ex_frepr : N -> str := N_dec.
+Definition ex_fparse (s : str) : option (fl N) := option_map FFin (N_parse s).
+Definition ex_feq : N -> N -> bool := N.eqb.
+Example ex_float_hyps : (forall f, ex_fparse (ex_frepr f) = Some (FFin f)) /\ (forall f, xml_ok (ex_frepr f) = true)
+                        /\ ex_fparse src_float_inf_marker = None.
+Proof.
+  unfold ex_fparse, ex_frepr. split; [intro f; now rewrite N_parse_dec|].
+  split; [intro f; destruct (N_dec_spec f) as (x & l & _ & _ & Hd & _); now apply xml_ok_digits|vm_compute; reflexivity].
+Qed.
+(* an html repair stand-in that does something: drops the code points lxml refuses *)
+Definition ex_repair (h : str) : str := filter cp_ok h.
+Definition ex_html : str := [60;112;62;0;97;60;47;112;62].                                   (* "<p>\000a</p>" *)
+Example ex_repair_idem : forall h, ex_repair (ex_repair h) = ex_repair h.
+Proof.
+  unfold ex_repair. induction h as [|c h IH]; [reflexivity|]. cbn [filter].
+  destruct (cp_ok c) eqn:E; [cbn [filter]; rewrite E, IH; reflexivity|exact IH].
+Qed.
+
 (* ---------------------------------------------------------------- 1. the descriptor algebra, any codec *)
 (* A valid, non-default value that may be written: the attribute is present afterwards, holds
    exactly what _to_xml produced, and reads back as the normal form of the value. *)
@@ -24,6 +53,15 @@ Theorem get_set : forall (V : Type) (c : codec V) (valid : V -> Prop) (norm : V 
             /\ pod_get c a (attr_set a d e) = ROk (Some (norm v)).
 Proof. exact alg_get_set. Qed.
 Print Assumptions get_set.
+Example get_set_hyps_sat :
+  (forall v, dt_valid v -> c_isdef (dt_codec local_utc) v = false ->
+     exists d, c_to (dt_codec local_utc) v = ROk d /\ xml_ok d = true /\ c_from (dt_codec local_utc) d = ROk (trunc_ms v))
+  /\ dt_valid ex_dt /\ c_isdef (dt_codec local_utc) ex_dt = false /\ may_write true ex_id ex_elem
+  /\ trunc_ms ex_dt <> ex_dt.
+Proof.
+  split; [intros v H _; exact (dt_rt v H)|]. split; [exact ex_dt_valid|]. split; [reflexivity|].
+  split; [left; reflexivity|vm_compute; discriminate].
+Qed.
 
 (* Assigning the default (or None) removes the attribute; reading then gives the default. *)
 Theorem default_elided : forall (V : Type) (c : codec V) w a e v, c_isdef c v = true -> may_write w a e ->
@@ -32,6 +70,9 @@ Theorem default_elided : forall (V : Type) (c : codec V) w a e v, c_isdef c v = 
   /\ pod_get c a (attr_pop a e) = ROk (c_default c).
 Proof. exact alg_default_elided. Qed.
 Print Assumptions default_elided.
+Example default_elided_hyps_sat :
+  c_isdef (str_codec [100;102]) [100;102] = true /\ may_write true ex_id ex_elem /\ attr_pop ex_id ex_elem <> ex_elem.
+Proof. split; [reflexivity|]. split; [left; reflexivity|vm_compute; discriminate]. Qed.
 
 Theorem none_elided : forall (V : Type) (c : codec V) w a e, may_write w a e ->
   pod_set c w a e None = (attr_pop a e, None)
@@ -39,16 +80,24 @@ Theorem none_elided : forall (V : Type) (c : codec V) w a e, may_write w a e ->
   /\ pod_get c a (attr_pop a e) = ROk (c_default c).
 Proof. exact alg_none_elided. Qed.
 Print Assumptions none_elided.
+Example none_elided_hyps_sat : may_write true ex_id ex_elem /\ attr_pop ex_id ex_elem <> ex_elem.
+Proof. split; [left; reflexivity|vm_compute; discriminate]. Qed.
 
+(* by definition of pod_get (its None branch) *)
 Theorem absent_default : forall (V : Type) (c : codec V) a e, attr_get a e = None -> pod_get c a e = ROk (c_default c).
 Proof. exact alg_absent_default. Qed.
 Print Assumptions absent_default.
+Example absent_default_hyps_sat : attr_get ex_id ex_elem_noid = None.
+Proof. reflexivity. Qed.
 
 (* A read-only attribute that is present rejects every assignment and the element is unchanged. *)
+(* by definition of pod_set (its first guard) *)
 Theorem readonly_rejects : forall (V : Type) (c : codec V) a e v, attr_get a e <> None ->
   pod_set c false a e v = (e, Some E_TypeError).
 Proof. exact alg_readonly_rejects. Qed.
 Print Assumptions readonly_rejects.
+Example readonly_rejects_hyps_sat : attr_get ex_id ex_elem <> None.
+Proof. vm_compute. discriminate. Qed.
 
 (* No assignment, successful or not, touches any other attribute or their order. *)
 Theorem set_frame : forall (V : Type) (c : codec V) w a e v,
@@ -62,6 +111,9 @@ Theorem error_unchanged : forall (V : Type) (c : codec V) w a e v er,
   snd (pod_set c w a e v) = Some er -> fst (pod_set c w a e v) = e.
 Proof. exact alg_error_unchanged. Qed.
 Print Assumptions error_unchanged.
+Example error_unchanged_hyps_sat :    (* a NUL in the text: lxml refuses it *)
+  snd (pod_set (str_codec []) true ex_id ex_elem (Some [97;0;98])) = Some E_ValueError.
+Proof. vm_compute. reflexivity. Qed.
 
 (* ---------------------------------------------------------------- 2. every descriptor of every class *)
 (* All rows of the regenerated table (every BasePOD attribute of the registered classes and of
@@ -71,11 +123,21 @@ Print Assumptions error_unchanged.
 Theorem all_rows_known : forall r, In r pod_rows -> row_ok r = true.
 Proof. exact row_ok_of. Qed.
 Print Assumptions all_rows_known.
+Example all_rows_known_hyps_sat : exists r, In r pod_rows /\ r_kind r = 3.
+Proof.
+  destruct (find (fun r => r_kind r =? 3) pod_rows) as [r|] eqn:E; [|vm_compute in E; discriminate].
+  apply find_some in E. destruct E as [Hin Hk]. exists r. split; [exact Hin|now apply N.eqb_eq].
+Qed.
 
 Theorem enum_rows_have_tables : forall r, In r pod_rows -> r_kind r = 6 ->
   exists st t d, enum_tab (r_enum r) = Some (st, t) /\ r_default r = VZ (Z.of_nat d) /\ (d < length t)%nat /\ table_ok t = true.
 Proof. exact enum_row_table. Qed.
 Print Assumptions enum_rows_have_tables.
+Example enum_rows_have_tables_hyps_sat : exists r, In r pod_rows /\ r_kind r = 6.
+Proof.
+  destruct (find (fun r => r_kind r =? 6) pod_rows) as [r|] eqn:E; [|vm_compute in E; discriminate].
+  apply find_some in E. destruct E as [Hin Hk]. exists r. split; [exact Hin|now apply N.eqb_eq].
+Qed.
 
 (* ---------------------------------------------------------------- 3. the codecs *)
 (* String (and summary/name/... : 797 of the rows): every text lxml accepts, any default *)
@@ -84,6 +146,9 @@ Theorem string_roundtrip : forall dflt w a e s, xml_ok s = true -> s <> dflt -> 
   /\ pod_get (str_codec dflt) a (attr_set a s e) = ROk (Some s).
 Proof. exact str_attr_rt. Qed.
 Print Assumptions string_roundtrip.
+Example string_roundtrip_hyps_sat :    (* "a", TAB, less-than, e-acute, an emoji; a read-only attribute not yet present *)
+  xml_ok [97;9;60;233;128512] = true /\ [97;9;60;233;128512] <> [100] /\ may_write false ex_id ex_elem_noid.
+Proof. split; [vm_compute; reflexivity|]. split; [discriminate|right; reflexivity]. Qed.
 
 Theorem bool_roundtrip : forall dflt w a e b, b <> dflt -> may_write w a e ->
   exists d, pod_set (bool_codec dflt) w a e (Some b) = (attr_set a d e, None)
@@ -91,6 +156,8 @@ Theorem bool_roundtrip : forall dflt w a e b, b <> dflt -> may_write w a e ->
             /\ pod_get (bool_codec dflt) a (attr_set a d e) = ROk (Some b).
 Proof. exact bool_attr_rt. Qed.
 Print Assumptions bool_roundtrip.
+Example bool_roundtrip_hyps_sat : true <> false /\ may_write true ex_id ex_elem.
+Proof. split; [discriminate|left; reflexivity]. Qed.
 
 (* Int: decimal text <-> Z for ALL integers (negative, huge) *)
 Theorem int_text_roundtrip : forall z, Z_parse (Z_dec z) = ROk z.
@@ -102,6 +169,8 @@ Theorem int_roundtrip : forall dflt w a e z, z <> dflt -> may_write w a e ->
   /\ pod_get (int_codec dflt) a (attr_set a (Z_dec z) e) = ROk (Some z).
 Proof. exact int_attr_rt. Qed.
 Print Assumptions int_roundtrip.
+Example int_roundtrip_hyps_sat : (-1000000000000000000000000000000)%Z <> 7%Z /\ may_write true ex_id ex_elem.
+Proof. split; [discriminate|left; reflexivity]. Qed.
 
 (* Enum: for every enum class of this tree (bound: the finite regenerated [enum_tabs]) and every member,
    by object ... *)
@@ -111,6 +180,13 @@ Theorem enum_roundtrip : forall en st dflt w a e i, In en enum_tabs -> (i < leng
             /\ pod_get (enum_codec st (snd en) dflt) a (attr_set a d e) = ROk (Some (EObj i)).
 Proof. intros en st dflt w a e i H. apply enum_attr_rt. exact (table_ok_of en H). Qed.
 Print Assumptions enum_roundtrip.
+Example enum_roundtrip_hyps_sat : exists en, In en enum_tabs /\ (2 < length (snd en))%nat /\ 2%nat <> 0%nat
+  /\ may_write true ex_id ex_elem.
+Proof.
+  destruct (find (fun en => Nat.ltb 2 (length (snd en))) enum_tabs) as [en|] eqn:E; [|vm_compute in E; discriminate].
+  apply find_some in E. destruct E as [Hin Hl]. exists en.
+  split; [exact Hin|]. split; [now apply Nat.ltb_lt|]. split; [discriminate|left; reflexivity].
+Qed.
 
 (* ... and by member name: the member's value is written and the member object is read back *)
 Theorem enum_by_name_roundtrip : forall en st dflt w a e i n v, In en enum_tabs -> nth_error (snd en) i = Some (n, v) ->
@@ -119,12 +195,24 @@ Theorem enum_by_name_roundtrip : forall en st dflt w a e i n v, In en enum_tabs 
   /\ pod_get (enum_codec st (snd en) dflt) a (attr_set a v e) = ROk (Some (EObj i)).
 Proof. intros en st dflt w a e i n v H. apply enum_name_attr_rt. exact (table_ok_of en H). Qed.
 Print Assumptions enum_by_name_roundtrip.
+Example enum_by_name_roundtrip_hyps_sat : exists en n v, In en enum_tabs /\ nth_error (snd en) 2 = Some (n, v)
+  /\ c_isdef (enum_codec (snd (fst en)) (snd en) 0) (EName n) = false /\ may_write false ex_id ex_elem_noid.
+Proof.
+  destruct (find (fun en => match nth_error (snd en) 2 with
+                            | Some m => negb (enum_isdef (snd (fst en)) (snd en) 0 (EName (fst m)))
+                            | None => false end) enum_tabs) as [en|] eqn:E; [|vm_compute in E; discriminate].
+  apply find_some in E. destruct E as [Hin Hp]. destruct (nth_error (snd en) 2) as [[n v]|] eqn:En; [|discriminate].
+  exists en, n, v. split; [exact Hin|]. split; [exact En|]. split; [now apply negb_true_iff in Hp|right; reflexivity].
+Qed.
 
 (* the default member, and for "stringy" enums also its name, is elided (with default_elided) *)
+(* by definition of enum_isdef (and reflexivity of its two equality tests) *)
 Theorem enum_default_name_is_default : forall t dflt n v, nth_error t dflt = Some (n, v) ->
   c_isdef (enum_codec true t dflt) (EName n) = true /\ c_isdef (enum_codec true t dflt) (EObj dflt) = true.
 Proof. intros. split; [eapply enum_default_name_isdef; eassumption|apply enum_default_isdef]. Qed.
 Print Assumptions enum_default_name_is_default.
+Example enum_default_name_is_default_hyps_sat : nth_error [([65], [97]); ([66], [98]); ([67], [99])] 1 = Some ([66], [98]).
+Proof. reflexivity. Qed.
 
 (* Datetime: every aware datetime with a whole-minute offset in (-24h, 24h), years 1..9999, reads back
    truncated to the millisecond, through the +HH:MM <-> +HHMM surgery of re_set / re_get *)
@@ -134,16 +222,22 @@ Theorem datetime_roundtrip : forall w a e x, dt_valid x -> may_write w a e ->
             /\ pod_get (dt_codec local_utc) a (attr_set a d e) = ROk (Some (trunc_ms x)).
 Proof. exact dt_attr_rt. Qed.
 Print Assumptions datetime_roundtrip.
+Example datetime_roundtrip_hyps_sat : dt_valid ex_dt /\ may_write false ex_id ex_elem_noid /\ trunc_ms ex_dt <> ex_dt.
+Proof. split; [exact ex_dt_valid|]. split; [right; reflexivity|vm_compute; discriminate]. Qed.
 
 Theorem datetime_colon_surgery : forall x, d_omin x < 1440 -> re_get (re_set (iso_ms x)) = iso_ms x.
 Proof. exact re_get_set_iso. Qed.
 Print Assumptions datetime_colon_surgery.
+Example datetime_colon_surgery_hyps_sat : d_omin ex_dt < 1440 /\ re_set (iso_ms ex_dt) <> iso_ms ex_dt.
+Proof. split; [reflexivity|vm_compute; discriminate]. Qed.
 
 (* naive datetimes: whatever astimezone() makes of them ([local]) is what is stored and read back *)
 Theorem datetime_naive_roundtrip : forall (local : dt -> dt) x, d_naive x = true -> dt_valid (local x) ->
   exists d, c_to (dt_codec local) x = ROk d /\ xml_ok d = true /\ c_from (dt_codec local) d = ROk (trunc_ms (local x)).
 Proof. exact dt_naive_rt. Qed.
 Print Assumptions datetime_naive_roundtrip.
+Example datetime_naive_roundtrip_hyps_sat : d_naive ex_dt_naive = true /\ dt_valid (local_utc ex_dt_naive).
+Proof. split; [reflexivity|]. unfold dt_valid, ex_dt_naive; cbn. repeat split; try reflexivity; try discriminate. Qed.
 
 (* Float.  Assumed about CPython (sampled by the harness): float(repr(f)) == f for finite f, repr is
    XML-compatible text, float("*") fails. *)
@@ -154,6 +248,13 @@ Theorem float_roundtrip : forall (F : Type) (frepr : F -> str) (fparse : str -> 
   /\ pod_get (float_codec F frepr fparse feq dflt) a (attr_set a (frepr f) e) = ROk (Some (FFin f)).
 Proof. exact float_attr_rt. Qed.
 Print Assumptions float_roundtrip.
+Example float_roundtrip_hyps_sat :
+  (forall f, ex_fparse (ex_frepr f) = Some (FFin f)) /\ (forall f, xml_ok (ex_frepr f) = true) /\ ex_fparse src_float_inf_marker = None
+  /\ ex_feq 15 0 = false /\ may_write true ex_id ex_elem.
+Proof.
+  destruct ex_float_hyps as (A & B & C). split; [exact A|]. split; [exact B|]. split; [exact C|].
+  split; [reflexivity|left; reflexivity].
+Qed.
 
 (* +infinity is written as the marker and read back (this needs FloatPOD._from_xml to know the marker:
    proposed_fixes/C07-float-inf.diff; on a tree without it [float_marker_is_read] does not compile) *)
@@ -163,20 +264,31 @@ Theorem float_inf_reads_back : forall (F : Type) (frepr : F -> str) (fparse : st
   /\ pod_get (float_codec F frepr fparse feq dflt) a (attr_set a src_float_inf_marker e) = ROk (Some FPInf).
 Proof. exact float_inf_attr_rt. Qed.
 Print Assumptions float_inf_reads_back.
+Example float_inf_reads_back_hyps_sat : may_write false ex_id ex_elem_noid.
+Proof. right. reflexivity. Qed.
 
 (* what the unfixed reader does with the marker (kept as the refutation of the original code) *)
+(* VACUOUS on this tree: [float_reads_marker] is a closed term that computes to true here (float_marker_is_read),
+   so the premise [float_reads_marker = false] cannot hold; see float_inf_unfixed_refuted_hyps_unsat below. *)
 Theorem float_inf_unfixed_refuted : forall (F : Type) (frepr : F -> str) (fparse : str -> option (fl F)) (feq : F -> F -> bool),
   fparse src_float_inf_marker = None -> forall dflt, float_reads_marker = false ->
   c_from (float_codec F frepr fparse feq dflt) src_float_inf_marker = RErr E_ValueError.
 Proof. exact float_inf_unreadable. Qed.
 Print Assumptions float_inf_unfixed_refuted.
+Example float_inf_unfixed_refuted_hyps_unsat : float_reads_marker = false -> False.
+Proof. vm_compute. discriminate. Qed.
+(* the other premise alone is satisfiable *)
+Example float_inf_unfixed_refuted_hyps_sat_other : ex_fparse src_float_inf_marker = None.
+Proof. vm_compute. reflexivity. Qed.
 
+(* by definition of float_to (NaN raises) and pod_set *)
 Theorem float_nan_rejected_unchanged : forall (F : Type) (frepr : F -> str) (fparse : str -> option (fl F)) (feq : F -> F -> bool) dflt w a e,
   snd (pod_set (float_codec F frepr fparse feq dflt) w a e (Some FNaN)) <> None
   /\ fst (pod_set (float_codec F frepr fparse feq dflt) w a e (Some FNaN)) = e.
 Proof. exact float_nan_rejected. Qed.
 Print Assumptions float_nan_rejected_unchanged.
 
+(* by definition of float_to (-inf raises) and pod_set *)
 Theorem float_neg_inf_rejected_unchanged : forall (F : Type) (frepr : F -> str) (fparse : str -> option (fl F)) (feq : F -> F -> bool) dflt w a e,
   snd (pod_set (float_codec F frepr fparse feq dflt) w a e (Some FNInf)) <> None
   /\ fst (pod_set (float_codec F frepr fparse feq dflt) w a e (Some FNInf)) = e.
@@ -190,18 +302,27 @@ Theorem html_roundtrip : forall (repair : str -> str) dflt w a e h, xml_ok (repa
   /\ pod_get (html_codec repair dflt) a (attr_set a (repair h) e) = ROk (Some (repair h)).
 Proof. exact html_attr_rt. Qed.
 Print Assumptions html_roundtrip.
+Example html_roundtrip_hyps_sat :
+  xml_ok (ex_repair ex_html) = true /\ ex_html <> [] /\ may_write true ex_id ex_elem /\ ex_repair ex_html <> ex_html.
+Proof. split; [vm_compute; reflexivity|]. split; [discriminate|]. split; [left; reflexivity|vm_compute; discriminate]. Qed.
 
 Theorem html_reassign_stable_partial : forall (repair : str -> str), (forall h, repair (repair h) = repair h) ->
   forall dflt a e h, xml_ok (repair h) = true -> repair h <> dflt ->
   pod_set (html_codec repair dflt) true a (attr_set a (repair h) e) (Some (repair h)) = (attr_set a (repair h) e, None).
 Proof. exact html_reassign. Qed.
 Print Assumptions html_reassign_stable_partial.
+Example html_reassign_stable_partial_hyps_sat :
+  (forall h, ex_repair (ex_repair h) = ex_repair h) /\ xml_ok (ex_repair ex_html) = true /\ ex_repair ex_html <> [].
+Proof. split; [exact ex_repair_idem|]. split; [vm_compute; reflexivity|vm_compute; discriminate]. Qed.
 
 (* PVMT selector rules *)
+(* by definition of pvmt_codec: the witness is [pv_raw v] and [xml_ok d] is the hypothesis itself *)
 Theorem pvmt_rules_roundtrip : forall dflt v, xml_ok (pv_raw v) = true ->
   exists d, c_to (pvmt_codec dflt) v = ROk d /\ xml_ok d = true /\ c_from (pvmt_codec dflt) d = ROk (PVRules (pv_raw v)).
 Proof. exact pvmt_rt. Qed.
 Print Assumptions pvmt_rules_roundtrip.
+Example pvmt_rules_roundtrip_hyps_sat : xml_ok (pv_raw (PVStr [97;61;34;98;34])) = true.    (* a="b" given as a plain str *)
+Proof. vm_compute. reflexivity. Qed.
 
 (* ---------------------------------------------------------------- 4. after save and reload *)
 (* The attribute escaper of loader/exs.py (class regenerated from ESCAPE_CHARS) followed by an XML
